@@ -4,32 +4,17 @@ import Driver.OwnCommon
 namespace Driver.C06
 open Own Driver.OwnCommon
 
-/-- DESTROY / after_DESTROY hook roles of an environment as the model sees them. -/
-def hookRefs (e : EnvIn) : List HookRef :=
-  (e.roles.zipIdx).filterMap (fun p =>
-    if p.1.kind = .hook then some { task := p.2, weight := p.1.weight, after := p.1.after } else none)
-
-/-- Hypothesis of `C06_destroyed_clean_partial` excluded by finding destroy_hooks_unreleased. -/
-def singleWeightIn (e : EnvIn) : Bool := singleWeight (hookRefs e)
-
 /-- Hypothesis excluded by finding launch_pending_leak: no task of the environment is
     scripted to be still starting (or dead) when its deployment is given up. -/
 def launchesPromptIn (e : EnvIn) : Bool := e.roles.all (fun r => r.kind == .call || r.launch == "ok")
 
-/-- Is the task with view key `x` a hook task of environment `k` (name `k.j`, role j a hook)? -/
-def isHookOf (sc : Scenario) (names : List String) (k : Nat) (x : Nat) : Bool :=
-  match names[x]?, sc.envs[k]? with
-  | some n, some e =>
-    (e.roles.zipIdx).any (fun p => p.1.kind == .hook && n == s!"{k}.{p.2}")
-  | _, _ => false
-
 /-- Why `cleanAfter k keep v` fails: `some hyp` if every failing clause is explained by an
     excluded hypothesis the input violates, `none` otherwise.
-    * a task still owned by the dead environment is explained iff it is one of its DESTROY hook tasks
-      (released only at the last weight and only while their role is ACTIVE: destroy_hooks_unreleased);
+    * a task still owned by the dead environment is never explained (`C06_destroyed_clean_code`,
+      `C06_failed_create_clean_code` have no hook hypothesis: finding destroy_hooks_unreleased is fixed);
     * a task neither killed nor ended nor in the roster is explained iff the environment's deployment was
       scripted to be given up while tasks were still starting (launch_pending_leak). -/
-def explain (sc : Scenario) (names : List String) (k : Nat) (keep : Bool) (v : View) : Option String :=
+def explain (sc : Scenario) (_names : List String) (k : Nat) (keep : Bool) (v : View) : Option String :=
   match sc.envs[k]? with
   | none => none
   | some e =>
@@ -40,13 +25,10 @@ def explain (sc : Scenario) (names : List String) (k : Nat) (keep : Bool) (v : V
     let dets := !v.dets.all (fun d => v.envs.any (fun E => decide (d ∈ E.dets)))
     let calls := !v.calls.all (fun c => decide (c.1 ≠ k) || decide (c.2.1 = c.2.2))
     if listed || dets || calls then none
-    else if !ownedRows.all (fun r => isHookOf sc names k r.task) then none
-    else
-      let freeLeaks := leaks.filter (fun m => !ownedRows.any (fun r => decide (r.task = m.task)))
-      if !freeLeaks.isEmpty && launchesPromptIn e then none
-      else if !ownedRows.isEmpty then some "destroy_hooks_unreleased"
-      else if !freeLeaks.isEmpty then some "launch_pending_leak"
-      else none
+    else if !ownedRows.isEmpty then none
+    else if !leaks.isEmpty && launchesPromptIn e then none
+    else if !leaks.isEmpty then some "launch_pending_leak"
+    else none
 
 /-- What the round's results oblige: environments that must be clean afterwards. -/
 def claims (c : RoundCtx) : List (Nat × Bool) :=
@@ -63,8 +45,9 @@ def judge (sc : Scenario) (ctxs : List RoundCtx) : Bool × String :=
     | c :: rest =>
       let cl := claims c
       if specC06Round cl c.hungNow c.ro.hk c.after then go rest
-      else if c.after.crashed || !hooksAfterRelease c.ro.hk then (false, "-")
-      else if c.hungNow then (false, "teardown_registration_race")
+      -- a request that does not return is a plain violation: the model of the code as it is never
+      -- hangs (C06_teardown_returns_code, C06_teardown_never_hangs_code; finding teardown_registration_race is fixed)
+      else if c.after.crashed || !hooksAfterRelease c.ro.hk || c.hungNow then (false, "-")
       else
         let bad := cl.filter (fun x => !cleanAfter x.1 x.2 c.after)
         let ex := bad.map (fun x => explain sc c.names x.1 x.2 c.after)
